@@ -96,8 +96,8 @@ pub fn forget_h<Tr: ?Sized + Trait, B: Backend, E: Elem + SatisfyTraits<Tr>>(p: 
             let s = p.start.get();
             let e = p.end.get();
             assume(s <= e && e <= len);
-            let f = any_usize();
-            let b = any_usize();
+            let f = p.f.get();
+            let b = p.b.get();
             assume(f <= p.fb && b <= p.fb && f + b <= e - s);
             macro_rules! take {
                 ($d:expr) => {{
@@ -332,19 +332,20 @@ pub fn clone_own<Tr: ?Sized + Trait + Cloneable, B: Backend, E: Elem + SatisfyTr
     let (v, m) = build::<Tr, B, E>(p.cap, p.len, 0);
     let c = v.clone();
     let k = any_usize();
-    assume(k < m.len);
     let first = any_bool();
+    let kk = if k < m.len { k } else { 0 };
+    let chk = m.len > 0;
     if first {
         drop(v);
-        if E::TRACKED {
-            vp_assert!(elems::live(m.id[k]) == 0 && elems::drops(m.id[k]) == 1, "VP: dropping the original must destroy its elements once");
-            vp_assert!(elems::live(m.id[k].wrapping_add(elems::CLONE_STEP)) == 1, "VP: dropping the original destroyed an element of the clone");
+        if E::TRACKED && chk {
+            vp_assert!(elems::live(m.id[kk]) == 0 && elems::drops(m.id[kk]) == 1, "VP: dropping the original must destroy its elements once");
+            vp_assert!(elems::live(m.id[kk].wrapping_add(elems::CLONE_STEP)) == 1, "VP: dropping the original destroyed an element of the clone");
         }
         drop(c);
     } else {
         drop(c);
-        if E::TRACKED {
-            vp_assert!(elems::live(m.id[k]) == 1 && elems::drops(m.id[k]) == 0, "VP: dropping the clone destroyed an element of the original");
+        if E::TRACKED && chk {
+            vp_assert!(elems::live(m.id[kk]) == 1 && elems::drops(m.id[kk]) == 0, "VP: dropping the clone destroyed an element of the original");
         }
         check_vec::<Tr, B, E>(&v, &m);
         drop(v);
